@@ -58,10 +58,12 @@ FP_TYPE = 'N * string * N * string * string * int'
 
 
 def cs(s):
-    '''Coq term for an ASCII string (codes when something is unprintable).'''
-    if all(32 <= ord(ch) < 127 for ch in s):
-        return common.cstr(s)
+    '''Coq term for an ASCII string. Coq's lexer takes every byte 1..127 raw
+    inside a string literal (a double quote is doubled); NUL goes through the
+    list of codes.'''
     assert all(ord(ch) < 128 for ch in s), repr(s)
+    if '\x00' not in s:
+        return '"' + s.replace('"', '""') + '"%string'
     return '(S_ [' + '; '.join(str(ord(ch)) for ch in s) + ']%N)'
 
 
@@ -167,13 +169,29 @@ def prepare_exhaustive(res, tier):
 JOBS = 8
 
 
+HASHED = {21}      # functions with long outputs: compared by hash
+
+
 def run_explicit(name, triples, chunk=400):
-    cases = [cpair(cn(fid), cs(inp), cs(out)) for fid, inp, out in triples]
-    bad, errs = common.run_case_files(name, HEADER, 'N * string * string',
-                                      'check_ser', cases, chunk=chunk, jobs=JOBS)
-    if errs:
-        raise RuntimeError('generated case file failed: ' + errs[0][-800:])
-    return bad
+    '''Indices of the triples (function, input, output of the implementation)
+    on which the model answers differently.'''
+    plain = [k for k, t in enumerate(triples) if t[0] not in HASHED]
+    hashed = [k for k, t in enumerate(triples) if t[0] in HASHED]
+    bad = []
+    for idx, ctype, fun, render in (
+            (plain, 'N * string * string', 'check_ser', cs),
+            (hashed, 'N * string * int', 'check_hash',
+             lambda out: f'{I.hstr(out, 7)}%uint63')):
+        if not idx:
+            continue
+        cases = [cpair(cn(triples[k][0]), cs(triples[k][1]), render(triples[k][2]))
+                 for k in idx]
+        sub, errs = common.run_case_files(name + fun[-4:], HEADER, ctype, fun,
+                                          cases, chunk=chunk, jobs=JOBS)
+        if errs:
+            raise RuntimeError('generated case file failed: ' + errs[0][-800:])
+        bad += [idx[k] for k in sub]
+    return sorted(bad)
 
 
 def report_disagreement(res, tie, fid, inp, out):
@@ -188,28 +206,55 @@ def report_disagreement(res, tie, fid, inp, out):
 
 
 def prepare_lines(res, tier):
-    '''All sequences of lines from LINE_ALPHABET (get_cards, block_cards).'''
-    nmax = 3 if tier == 'quick' else 4
-    triples = []
-    for n in range(1, nmax + 1):
-        for seq in itertools.product(LINE_ALPHABET, repeat=n):
-            text = '\n'.join(seq) + '\n'
-            for name in ('get_cards', 'block_cards'):
-                fid = I.FID[name]
-                triples.append((fid, text, I.FUNS[fid][1](text)))
-            res.seen(text, nontrivial=n >= 2)
-    res.count('lines:sequences', len(triples) // 2)
+    '''All sequences of lines from LINE_ALPHABET (get_cards, block_cards),
+    enumerated on both sides and compared by fingerprint, one bucket per
+    (function, length, first line).'''
+    nmax = 4 if tier == 'quick' else 5
+    buckets, cases = [], []
+    for name in ('get_cards', 'block_cards'):
+        fid = I.FID[name]
+        fun = I.FUNS[fid][1]
+        for n in range(1, nmax + 1):
+            for first in LINE_ALPHABET:
+                pre = first + '\n'
+                acc = 0
+                for seq in itertools.product(LINE_ALPHABET, repeat=n - 1):
+                    text = pre + ''.join(l + '\n' for l in seq)
+                    acc = (acc * 1000003 + I.hstr(fun(text), I.hstr(text, 7))) % I.MODULUS
+                buckets.append((fid, n - 1, pre))
+                cases.append(cpair(cn(fid), clist(cs(l) for l in LINE_ALPHABET),
+                                   cn(n - 1), cs(pre), f'{acc}%uint63'))
+    total = sum(len(LINE_ALPHABET) ** n for n in range(1, nmax + 1))
+    res.count('lines:sequences', total)
+    res.evaluations += 2 * total
 
     def job():
-        return run_explicit('c14_lines', triples, chunk=500)
+        return common.run_case_files(
+            'c14_lines', HEADER, 'N * list string * N * string * int',
+            'check_fp_lines', cases, chunk=max(4, len(cases) // 12), jobs=JOBS)
 
-    def finish(bad):
-        res.obligation(f'tie:lines ({len(triples)} calls: get_cards and '
-                       f'block_cards on all sequences of <= {nmax} lines from a '
-                       f'{len(LINE_ALPHABET)}-line alphabet)', not bad,
-                       f'{len(bad)} disagreements')
-        for k in bad[:5]:
-            report_disagreement(res, 'tie:lines', *triples[k])
+    def finish(result):
+        bad, errs = result
+        res.obligation(f'tie:lines (get_cards and block_cards on all {total} '
+                       f'sequences of <= {nmax} lines from a '
+                       f'{len(LINE_ALPHABET)}-line alphabet, by fingerprint)',
+                       not bad and not errs,
+                       f'{len(bad)} buckets disagree {errs[:1]}')
+        for idx in bad[:3]:
+            fid, n, pre = buckets[idx]
+            explicit = []
+            for seq in itertools.islice(itertools.product(LINE_ALPHABET, repeat=n), 3000):
+                text = pre + ''.join(l + '\n' for l in seq)
+                explicit.append((fid, text, I.FUNS[fid][1](text)))
+            bad2 = run_explicit(f'c14_linesx{idx}', explicit)
+            if not bad2:
+                res.violation('correspondence',
+                              f'fingerprint of {I.FUNS[fid][0]} over line sequences '
+                              f'behind {pre!r} differs but no single input was isolated',
+                              {'theorem_or_correspondence': 'tie:lines',
+                               'prefix': pre, 'n': n}, found_input=False)
+            for k in bad2[:3]:
+                report_disagreement(res, 'tie:lines', *explicit[k])
     return job, finish
 
 
@@ -257,7 +302,7 @@ def prepare_layout(res, tier, rng):
         triples.append((fid, inp, out))
         res.count('layout:' + name)
         if out.startswith(I.SEP4):
-            res.count('layout:' + name + ':' + out[1:])
+            res.count('layout:' + name + ':' + out[1:].split(I.SEP2)[0])
         res.seen((name, inp), nontrivial=nontrivial)
         return out
 
@@ -269,7 +314,8 @@ def prepare_layout(res, tier, rng):
         bad_text, kind = malform(rng, rng.choice(texts))
         res.count('layout:malformed:' + kind)
         for text in texts + [bad_text]:
-            out = add('front', text)
+            add('front_all', text)
+            out = I.f_front(text)
             if I.f_front_file(text) != out:
                 res.violation('correspondence', 'MIP(file).cards differs from '
                               'the same calls on the text held in memory',
@@ -277,7 +323,6 @@ def prepare_layout(res, tier, rng):
                                          'text': text},
                                'theorem_or_correspondence': 'tie:layout'},
                               found_input=False)
-            add('blocks', text)
             # card level on each block of the real splitter
             from MIP.mip.blocks import get_block_positions
             try:
@@ -289,7 +334,6 @@ def prepare_layout(res, tier, rng):
                 if key not in dres:
                     continue
                 block = text[slice(*dres[key][0])]
-                add('get_cards', block)
                 from MIP.mip.main import Card
                 from MIP.mip.cards import get_cards
                 for lines, _, _ in get_cards(block, skipcomments=True):
@@ -304,7 +348,7 @@ def prepare_layout(res, tier, rng):
     uniq = list(dict.fromkeys(triples))
 
     def job():
-        return run_explicit('c14_layout', uniq, chunk=250)
+        return run_explicit('c14_layout', uniq, chunk=300)
 
     def finish(bad):
         res.obligation(f'tie:layout ({len(uniq)} distinct calls on {n_decks} '
